@@ -5,6 +5,9 @@ import Mqtt5V.Model.Mutex
 import Mqtt5V.Model.SerialOrder
 import Mqtt5V.Model.Utf8
 import Driver.Codec
+import Mqtt5V.Model.Sender
+import Mqtt5V.Model.Replies
+import Mqtt5V.Model.Verdict
 /-! `mdrv`: the model behind a one-line-in / one-line-out protocol (DESIGN.md Appendix B).
 Imports Model/Spec/Gen only (no Mathlib, so it links as a native executable). -/
 open Mqtt5V
@@ -59,6 +62,13 @@ def u8Step (ws : List String) : String :=
 def pureStep (ws : List String) : String :=
   match ws with
   | "u8" :: rest => u8Step rest
+  | "verdict" :: cat :: n :: codes =>
+    match Category.ofString? cat, n.toNat?, codes.mapM String.toNat? with
+    | some c, some n, some cs =>
+      match Model.Verdict.verdict c n cs with
+      | some v => "ok " ++ String.intercalate "," (v.map toString)
+      | none => "malformed"
+    | _, _, _ => "bad-op"
   | "enc" :: _ => Driver.Codec.step ws
   | "varlen" :: _ => Driver.Codec.step ws
   | ["ord", "lt", p1, s1, p2, s2] =>
@@ -91,6 +101,8 @@ structure DState where
   pid : Model.PidAlloc.Sys := Model.PidAlloc.Sys.init
   mtx : Model.Mutex.M := {}
   mtxSlots : List Nat := []
+  snd : Model.Sender.S := {}
+  rep : Model.Replies.R := {}
 
 def allocN : Nat → Model.PidAlloc.Sys → Nat → Model.PidAlloc.Sys × Nat
   | 0, s, last => (s, last)
@@ -146,8 +158,46 @@ def mtxStep (st : DState) (ws : List String) : DState × String :=
   | ["drain"] => let r := mtxDrain (m.posted.length + 1) m []; fin r.1 r.2 st.mtxSlots
   | _ => (st, "bad-op")
 
+def sndStep (s : Model.Sender.S) (ws : List String) : Model.Sender.S × String :=
+  open Model.Sender in
+  let go (i : In) := let r := step s i; (r.1, renderEvs r.2)
+  match ws with
+  | ["new"] => ({}, "-")
+  | ["send", id, fl, ser, aw] =>
+    match id.toNat?, fl.toNat?, ser.toNat?, aw.toNat? with
+    | some id, some fl, some ser, some aw =>
+      go (.send ⟨id, fl % 2 == 1, fl / 2 % 2 == 1, fl / 4 % 2 == 1, ser, aw != 0⟩)
+    | _, _, _, _ => (s, "bad-op")
+  | ["wdone", e] =>
+    if s.inflight.isNone then (s, "bad-op") else
+    match e with
+    | "ok" => go (.wdone .ok) | "try_again" => go (.wdone .tryAgain) | "aborted" => go (.wdone .aborted)
+    | "no_recovery" => go (.wdone .noRecovery) | _ => (s, "bad-op")
+  | ["ack", id] => match id.toNat? with | some id => go (.ack id) | none => (s, "bad-op")
+  | ["rm", v] => if v = "none" then go (.setRm none) else match v.toNat? with | some n => go (.setRm (some n)) | none => (s, "bad-op")
+  | ["resend"] => go .resendRead
+  | ["cancel"] => go .cancel
+  | _ => (s, "bad-op")
+
+def repStep (r : Model.Replies.R) (ws : List String) : Model.Replies.R × String :=
+  open Model.Replies in
+  let go (i : In) := let x := step r i; (x.1, renderEvs x.2)
+  match ws with
+  | ["new"] => ({}, "-")
+  | ["wait", w, c, p] => match w.toNat?, c.toNat?, p.toNat? with
+    | some w, some c, some p => go (.wait w c p) | _, _, _ => (r, "bad-op")
+  | ["dispatch", c, p, t] => match c.toNat?, p.toNat?, t.toNat? with
+    | some c, some p, some t => go (.dispatch c p t) | _, _, _ => (r, "bad-op")
+  | ["resend"] => go .resendUnanswered
+  | ["cancel"] => go .cancelUnanswered
+  | ["clearfast"] => go .clearFast
+  | ["clearpubrels"] => go .clearPubrels
+  | _ => (r, "bad-op")
+
 def step (st : DState) (ws : List String) : DState × String :=
   match ws with
+  | "rep" :: rest => let r := repStep st.rep rest; ({ st with rep := r.1 }, r.2)
+  | "snd" :: rest => let r := sndStep st.snd rest; ({ st with snd := r.1 }, r.2)
   | "mtx" :: rest => mtxStep st rest
   | "pid" :: rest => let r := pidStep st.pid rest; ({ st with pid := r.1 }, r.2)
   | _ => (st, pureStep ws)
